@@ -5,6 +5,37 @@ from harness import *
 ALPHA_U = [' ', 'a', '-', ' ', '­', '́', '​', '⁠', '你', '\U0001f602', ')', '\t']
 
 
+# sentence templates for the 'tmpl' generator ('?': symbolic 1-byte character, see WrapHarness.gen_text)
+TEMPLATES = {
+    'sentence': 'The qu?ck brown-f?x  jumps ?ver',          # hyphen, double space, 5 words
+    'paras': 'ab ?d\n\n e?-gh i \nj?',                      # empty paragraph, leading / trailing spaces
+    'wide': 'x? \u4f60\u597d?\u4e16\u754c ab\u0301c ?z',       # double-width and combining characters
+    'longword': 'aaaa?aaaaaaa bb ?c',                       # word that must be force-broken
+    'hyphens': 'a-b-?-d e?f-g -?',                          # many hyphen split points
+    'crlf': 'ab?\r\ncd ?f\r\n',                             # CRLF line endings
+    'ansi': '\x1b[31mre?\x1b[0m gr?en \x1b]8;;u\x07l?nk\x1b]8;;\x07 x',   # CSI and OSC sequences
+    'short': 'a b?c de-f g',
+}
+
+
+def tmpl_spaces(base, names, **kw):
+    return [dict(base, gen='tmpl', tmpl=TEMPLATES[n], tname=n, **kw) for n in names]
+
+
+def std_tmpl_spaces(base, q, variants=True, names=None, **kw):
+    """the standard template spaces of a wrap-level property: quick: three cheap templates; thorough: all of them,
+    plus (variants) break_words off and symbolic indents on the multi-word ones"""
+    if q:
+        return tmpl_spaces(base, names or ['short', 'longword', 'crlf'], **kw)
+    names = names or [n for n in TEMPLATES if n != 'short']
+    out = tmpl_spaces(base, names, **kw)
+    if variants:
+        multi = [n for n in names if n in ('sentence', 'paras', 'hyphens', 'wide')]
+        out += tmpl_spaces(dict(base, bw=False), multi, **kw)
+        out += tmpl_spaces(dict(base, ind='both', imax=1), multi, **kw)
+    return out
+
+
 def custom_split(kind):
     def fn(I, word):
         st = word if isinstance(word, Str) else deref(word)
@@ -86,6 +117,23 @@ class WrapHarness(Harness):
                     chars.append((I.sym_char('w%d_%d' % (k, j), 0, 0x7f, exclude=(32, 10, 13, ESC)), 1))
             if cfg.get('trail'):
                 chars += [(32, 1)] * I.choose(mg + 1, 'trail')
+            return Txt(chars)
+        if g == 'tmpl':
+            # sentence template: concrete characters with a few symbolic positions.  '?' is a symbolic 1-byte
+            # character (the whole class 0..0x7f except ESC, so it may turn into a space, '-', CR or LF and change
+            # the word / line structure), '\u00bf' (inverted '?') a symbolic 2-byte character, '\u203d' a symbolic
+            # 3-byte character.  Reaches paragraph shapes (5-8 words, 3-6 output lines at the widths that matter)
+            # far beyond the flat N bound while width and indents stay fully symbolic.
+            chars = []
+            for k, ch in enumerate(cfg['tmpl']):
+                if ch == '?':
+                    chars.append((I.sym_char('t%d' % k, 0, 0x7f, exclude=(ESC,)), 1))
+                elif ch == '\u00bf':
+                    chars.append((I.sym_char('t%d' % k, *CLASS_RANGE[2]), 2))
+                elif ch == '\u203d':
+                    chars.append((I.sym_char('t%d' % k, *CLASS_RANGE[3]), 3))
+                else:
+                    chars.append((ord(ch), utf8len(ord(ch))))
             return Txt(chars)
         if g == 'symcls':
             return gen_text(I, n, 'c', tuple(cfg['classes']), lenvar=cfg.get('lenvar', True))
